@@ -293,13 +293,26 @@ def neval(e: ast.AST, env: Dict[str, object]):
       return -v
     if isinstance(e.op, ast.Not):
       return not v
+  if isinstance(e, ast.Call) and isinstance(e.func, ast.Name) and isinstance(env.get(e.func.id), _Closure) and not e.keywords:
+    clo = env[e.func.id]
+    params = [a.arg for a in clo.node.args.args]
+    if len(params) != len(e.args):
+      raise NoValue(key)
+    inner = dict(clo.env)
+    for p_, a_ in zip(params, e.args):
+      inner[p_] = neval(a_, env)
+    return run_concrete(clo.node, inner, tolerant=True)
+  if isinstance(e, ast.Lambda):
+    fn_ = ast.FunctionDef(name='<lambda>', args=e.args, body=[ast.Return(value=e.body)], decorator_list=[])
+    return _Closure(fn_, env)
   if isinstance(e, ast.Call) and '__callhook__' in env:
     r = env['__callhook__'](e, env)
     if r is not NotImplemented:
       return r
-  if isinstance(e, ast.Call) and isinstance(e.func, ast.Name) and e.func.id in ('abs', 'min', 'max', 'float', 'int', 'range', 'list', 'tuple', 'len', 'sorted', 'reversed') and not e.keywords:
+  if isinstance(e, ast.Call) and isinstance(e.func, ast.Name) and e.func.id in ('abs', 'min', 'max', 'float', 'int', 'range', 'list', 'tuple', 'len', 'sorted', 'reversed', 'set', 'frozenset', 'bool', 'str') and not e.keywords:
     fn_ = {'abs': abs, 'min': min, 'max': max, 'float': float, 'int': int, 'range': lambda *a: list(range(*a)), 'list': list,
-           'tuple': tuple, 'len': len, 'sorted': sorted, 'reversed': lambda x: list(reversed(x))}[e.func.id]
+           'tuple': tuple, 'len': len, 'sorted': sorted, 'reversed': lambda x: list(reversed(x)), 'set': set, 'frozenset': frozenset,
+           'bool': bool, 'str': str}[e.func.id]
     try:
       return fn_(*[neval(a, env) for a in e.args])
     except (TypeError, ValueError):
@@ -322,6 +335,16 @@ def neval(e: ast.AST, env: Dict[str, object]):
     return out
   if isinstance(e, ast.Name) and e.id in env:
     return env[e.id]
+  if isinstance(e, ast.Attribute):
+    try:
+      base = neval(e.value, env)
+    except NoValue:
+      raise NoValue(key)
+    if isinstance(base, dict) and e.attr in base:
+      return base[e.attr]
+    if hasattr(base, '__dict__') and e.attr in vars(base):
+      return getattr(base, e.attr)
+    raise NoValue(key)
   if isinstance(e, ast.Compare):
     l = neval(e.left, env)
     for op, c in zip(e.ops, e.comparators):
@@ -361,6 +384,21 @@ def neval(e: ast.AST, env: Dict[str, object]):
 
 class Raised(Exception):
   """The interpreted body executed a raise statement."""
+
+
+class _Closure:
+  """A nested function met while interpreting: called with the defining environment plus its arguments."""
+
+  def __init__(self, node, env):
+    self.node, self.env = node, env
+
+
+class _Continue(Exception):
+  pass
+
+
+class _Break(Exception):
+  pass
 
 
 class _Ret(Exception):
@@ -425,8 +463,7 @@ def run_concrete(fn: ast.AST, env: Dict[str, object], tolerant: bool = False):
           if not tolerant:
             raise
           env.pop(st.targets[0].id, None)  # unknown from here on
-      elif tolerant and isinstance(st, ast.Expr):
-        continue
+
       elif isinstance(st, ast.Assign) and len(st.targets) == 1 and isinstance(st.targets[0], ast.Tuple) \
           and all(isinstance(t, ast.Name) for t in st.targets[0].elts):
         v = neval(st.value, env)
@@ -440,6 +477,29 @@ def run_concrete(fn: ast.AST, env: Dict[str, object], tolerant: bool = False):
           env[t.id] = x
       elif isinstance(st, ast.Raise):
         raise Raised(unparse(st.exc, 60) if st.exc is not None else 'raise')
+      elif isinstance(st, ast.For) and isinstance(st.target, ast.Name) and not st.orelse:
+        for v in list(neval(st.iter, env)):
+          env[st.target.id] = v
+          try:
+            block(st.body)
+          except _Continue:
+            continue
+          except _Break:
+            break
+      elif isinstance(st, ast.Continue):
+        raise _Continue()
+      elif isinstance(st, ast.Break):
+        raise _Break()
+      elif isinstance(st, ast.Expr) and isinstance(st.value, ast.Call) and isinstance(st.value.func, ast.Attribute) \
+          and st.value.func.attr in ('append', 'add') and isinstance(st.value.func.value, ast.Name) \
+          and isinstance(env.get(st.value.func.value.id), (list, set)) and len(st.value.args) == 1:
+        tgt = env[st.value.func.value.id]
+        val = neval(st.value.args[0], env)
+        tgt.append(val) if isinstance(tgt, list) else tgt.add(val)
+      elif isinstance(st, ast.FunctionDef):
+        env[st.name] = _Closure(st, env)
+      elif tolerant and isinstance(st, ast.Expr):
+        continue
       elif isinstance(st, ast.AnnAssign) and isinstance(st.target, ast.Name) and st.value is not None:
         env[st.target.id] = neval(st.value, env)
       elif isinstance(st, ast.Expr) and isinstance(st.value, ast.Constant):
